@@ -528,6 +528,13 @@ def run_pipeline_case(ctx, report, ops, case, label):
             report.notes.append(f"{label}: {out['error'][:200]}")
         return out
     steps = out["steps"]
+    if len(steps) > [n for n, _ in steps].index("disparity") + 1:
+        report.hit("later_steps_own_bits:cost_volume_flags_untouched")
+    if "cv_mask_changed_by" in out:
+        # a step working on the disparity map wrote into the flags of the cost volume (the two masks share memory):
+        # another winner-takes-all on that cost volume would start from flags that no longer describe the costs
+        report.fail("later_steps_own_bits", "cost_volume_mask_written_by_later_step", {"case": case, "label": label},
+                    {"step": out["cv_mask_changed_by"], "first_changed_pixel": out["cv_mask_diff"]})
     mc = dict(steps)["matching_cost"]
     off = mc["left_cv"]["offset"]
     check_criteria_side(ctx, report, case, "left", out["stage1"][0], mc["left_cv"], dict(steps)["disparity"]["left"], label)
